@@ -37,6 +37,8 @@ func Input(l *InputSharedVars, g *GlobalVarsMain, hPath *HFilePath, driConfig *C
 
 	// load soil textures from parcap file
 	l.ValidSoilTexture = LoadValidSoilTextures(hPath.parcap, g.Session, false)
+	// load soil textures from hypar file, Hydro looks up every horizon there
+	validHyparTexture := LoadValidSoilTextures(hPath.hypar, g.Session, false)
 
 	//!  Einleseprogramm für Schlagdaten
 	// ! ----------------------- Beginn Lesen der Polygondatei ------------------------
@@ -130,6 +132,16 @@ func Input(l *InputSharedVars, g *GlobalVarsMain, hPath *HFilePath, driConfig *C
 					textureExists := false
 					for iTex := 0; iTex < len(l.ValidSoilTexture); iTex++ {
 						if currentSoil.BART[horizon] == l.ValidSoilTexture[iTex] {
+							textureExists = true
+							break
+						}
+					}
+					if !textureExists {
+						return fmt.Errorf("soil texture %s is not listed in HYPAR.TRU", currentSoil.BART[horizon])
+					}
+					textureExists = false
+					for iTex := 0; iTex < len(validHyparTexture); iTex++ {
+						if currentSoil.BART[horizon] == validHyparTexture[iTex] {
 							textureExists = true
 							break
 						}
